@@ -74,6 +74,12 @@ prop("C09", claimed=True, level="model_checking", engine="E-SEQ",
      note="Alphabet and sizes are bounded; values are compared as (field, OwnedValue) lists in insertion order.",
      design_ref="3/C09")
 
+prop("C14", claimed=True, level="model_checking", engine="E-SEQ",
+     technique="bounded-exhaustive enumeration of corpora x aggregation requests x filtering queries x partitions: direct evaluation of the request over model documents, and differential comparison of every segmentation / every merge order and grouping of separately searched indexes (with serialisation round trip) against the single-segment result",
+     text="Every multiset of <= 3 (thorough 4) documents over an 8-document alphabet (negative, fractional and bucket-boundary values, missing fields, a multi-valued document with a duplicate) x ~200 requests (count / sum / min / max / avg / stats with and without missing, extended stats, cardinality, percentiles, terms with order / size / min_doc_count / missing, range, histogram with interval / offset / bounds, date histogram, filter, composite, top_hits, depth-2 nestings incl. terms x histogram) x 3 filtering queries: the result equals a direct evaluation (metrics, terms, range, histogram and nestings) and is identical for every contiguous split into <= 3 segments and for every split into <= 3 separate indexes merged in every order and two groupings, with and without a postcard round trip.",
+     note="Exact for counts, keys and bucket order (ties between equal ordering values may permute), 1e-9 relative for float sums, 3% for percentiles; terms requested in the documented exact regime (segment_size >= cardinality) or ordered by key; zones the documentation leaves open (min_doc_count 0 under a filter, several values of one document in one bucket, ordering by sub-aggregation, fractional bounds on integer columns, overlapping ranges) are compared for partition invariance only or avoided.",
+     design_ref="3/C14")
+
 ALL = ["C%02d" % i for i in range(1, 21)]
 REASON_TODO = "check not built yet in this revision of /verif (design in DESIGN.md section 3); will be claimed when its engine lands"
 
